@@ -11,6 +11,7 @@ R01.5 (A3) base::matches / toggle::matches return true only under an equality / 
       own name() / short_name().
 Not decided: letter-level accounting inside a bundle (-vz with z undeclared; -vo file) - see DESIGN.md.
 """
+import re
 from sa import ir, cfg, logic, facts
 from sa.ir import fmt, walk, short
 from sa.logic import Not, And, Or
@@ -226,7 +227,8 @@ def run(ctx):
             if "==" in a and ("this.name()" in a or "this.name_" in a) and (pn + ".") in a:
                 own.append(("a", a))
             if ".count(this.short_name())" in a or ".count(this.short_)" in a:
-                own.append(("a", a))
+                # membership of the own letter: count(..) != 0 / 0 < count(..) / !(count(..) == 0)
+                own.append(Not(("a", a)) if re.search(r"== 0\)$", a) else ("a", a))
         if not own:
             ctx.bad("R01.5", f, "true-only-under-own-name", "%s contains no comparison of the token with the option's own name() or short_name()" % short(f.qual), f)
             continue
